@@ -365,8 +365,12 @@ def run_tags(sim, params):
             extra["llcp"]["brs"] = 0
     if "card" in which:
         extra["card"]["timeout"] = sim.pick("card.timeout", [0.1, 0.5, 1.0])
-    fault = sim.wpick("devfault", [(8, None), (1, "ioerror"), (1, "unsupported_A"), (1, "unsupported_listen")])
+    fault = sim.wpick("devfault", [(8, None), (1, "ioerror"), (1, "unsupported_A"), (1, "unsupported_listen"), (2, "closed")])
     fault_at = sim.pick("devfault.at", [0, 1, 3, 7])
+    close_at = None
+    if fault == "closed":
+        # often shortly before terminate() turns true: the presence loop then ends by terminate with the device gone
+        close_at = sim.pick("close.at", [0.05, 0.35, 1.5, max(0.0, T_rel - 0.004), max(0.0, T_rel - 0.02), max(0.0, T_rel - 0.1)])
     desc = {"h": "tags", "tag": typ, "presence": presence, "T_term": T_rel, "options": which, "extra": extra,
             "plan": plan_desc(plan), "devfault": (fault, fault_at)}
     hist = History(k)
@@ -401,6 +405,15 @@ def run_tags(sim, params):
                 r = k.now() >= T_term
                 hist.add("poll", None, None, r)
                 return r
+            if close_at is not None:
+                # another thread of the application closes the frontend while connect() is running (shutdown path):
+                # for connect() that is a failing device (ENODEV), never an internal error
+                def closer():
+                    kernel.TIME.sleep(close_at)
+                    state["t_closed"] = k.now()
+                    sim.fault("closed_by_other_thread")
+                    fe.clf.close()
+                k.spawn(closer, name="closer", daemon=True)
             try:
                 out["outcome"] = ("returned", fe.clf.connect(terminate=terminate, **opts))
             except Exception as e:
@@ -426,6 +439,8 @@ def run_tags(sim, params):
         ctx["fatal"].append((0, "single unsupported target"))
     if fault in ("unsupported_listen", "unsupported_A"):
         ctx["fatal"].append((0, fault))
+    if state.get("t_closed") is not None and state["t_closed"] <= state["t_ret"]:
+        ctx["fatal"].append((state["t_closed"], "closed by another thread"))
     ctx["fatal_certain"] = bool(fatal)
     kind, ret = out["outcome"]
     vs = judge_connect(hist, which, plan, out["outcome"], ctx, desc)
